@@ -357,18 +357,38 @@ _c("C15",
    "Coq proof (cache transparency and independence by induction over histories, parametric in generated key kinds) + differential "
    "against fresh interpreters and model correspondence in vm_compute")
 _c("C18",
-   "Coq theorems (Props/C18.v, closed under the global context): every raise site of typedpy/fields, structures.py and serialization.py is "
-   "regenerated as a message template on every run (Gen/Templates.v, 116 sites); the three regular expressions of errors.py are "
-   "transcribed as parsers with their exact character classes; for every generated template of a scalar / collection-of-scalar site "
-   "(finite forallb lifted), ALL identifier class and field names, ALL element suffixes and ALL value texts without newline, parsing "
-   "the rendered message yields the field path and a non-empty problem (C18_template_ok, induction over strings; all_templates_ok is "
-   "re-checked by the kernel against today's messages); collect-all reports exactly the invalid bound arguments, once each, in order; "
-   "fail-fast reports the first; the helper is total; the deserialization collect-all clause is characterised and refuted (F19). Real "
-   "str(exception), ErrorInfo, construction and deserialization outcomes are compared with the model inside Coq.",
-   "Trusted: Coq kernel + vm_compute; Render.v/Parse.v/Collect.v hand-written; template extractor harness/genmods/templates.py (fails "
-   "closed to Other); json encode/decode as oracle; ASCII identifiers.",
-   "Coq proof (parser/renderer round trip by induction over strings, parametric in generated message templates; induction over "
-   "bound arguments) + model/implementation correspondence in vm_compute")
+   "Coq theorems (Props/C18.v, closed under the global context). MESSAGES: every raise site of typedpy/fields, structures.py and "
+   "serialization.py is regenerated as a message template on every run (Gen/Templates.v); the three regular expressions of "
+   "errors.py are transcribed as parsers with their exact character classes; for every generated template of a scalar / "
+   "collection-of-scalar site (finite forallb lifted), ALL identifier class and field names, ALL element suffixes and ALL value "
+   "texts without newline, parsing the rendered message yields the field path and a non-empty problem (C18_template_ok, induction "
+   "over strings; all_templates_ok is re-checked by the kernel against today's messages). WHO RAISES: the whole __set__ chain of "
+   "every concrete scalar field class (Number/Integer/Float x sign mix-ins, String, Boolean), Enum._validate, validate_size and "
+   "verify_type_and_uniqueness are regenerated on every run, along the real MRO, as programs of a deep-embedded guard language "
+   "(Errors/Guard.v, Gen/GuardProgs.v); a flow-sensitive class analysis is proved sound for EVERY program, field object and value "
+   "(C18_guard_analysis_sound, induction over programs and conditions): an accepted chain never ends in an exception raised by a "
+   "guard expression itself (comparison, hash, len, float(), %). Today's chains pass (C18_kinds_ok, kernel re-check each run), so a "
+   "scalar field rejects only through raise statements whose message names the field (C18_rejection_is_templated, "
+   "C18_rejection_names_field) - for ALL values for Number, Integer and its sign variants, String, Enum over a value list and the "
+   "collection helpers; on a stated restricted domain for the known defects (sign mix-ins F22a, Boolean F22b, Enum over a class "
+   "F22c, Float F24), whose unconditional statement is refuted by witness. COLLECTING: collect-all reports exactly the invalid bound "
+   "arguments, once each, in order; fail-fast reports the first; exceptions other than TypeError/ValueError leave the collect-all "
+   "loop (construct_u, equal to construct when all are caught); the helper is total; the deserialization collect-all clause is "
+   "characterised and refuted (F19). Real str(exception), ErrorInfo, construction and deserialization outcomes, and the outcome "
+   "of every real validation chain (accepted / raise statement id / bare exception class) on an enumerated lattice leaf kind x value "
+   "class x position plus random cases are compared with the model inside Coq; real field objects are compared with the schema the "
+   "chain theorems assume.",
+   "Trusted: Coq kernel + vm_compute; Render.v/Parse.v/Collect.v/Guard.v semantics hand-written (Guard.v uses the operators of "
+   "Base/PyOps.v; float() of ints beyond 2^53 that do not overflow, Decimal arithmetic and opaque objects are Unmodelled and skipped); "
+   "template extractor harness/genmods/templates.py (fails closed to Other) and chain translator harness/genmods/guard_progs.py "
+   "(fails closed to PUnknown; folds getattr(instance, '_skip_validation'|'_trust_supplied_values', False) to False); schemas of "
+   "Errors/GuardSchema.v (what a declaration leaves in the field object: checked against every generated field object, not derived); "
+   "json encode/decode as oracle; ASCII identifiers. The element wrappers of Array/Set/Tuple/Map.__set__ and of the deserializer "
+   "(path suffixes) are hand-modelled and judged on observed messages only; Enum.__set__'s conversion after validation and "
+   "Enum.deserialize are outside the guard model.",
+   "Coq proof (parser/renderer round trip by induction over strings, parametric in generated message templates; soundness of a class "
+   "analysis over a generated deep embedding of the validation chains; induction over bound arguments) + model/implementation "
+   "correspondence in vm_compute")
 
 _c("C10",
    "PARTIAL. Coq theorems (Props/C10.v, closed under the global context) over executable models of the trusted-deserialization "
